@@ -2,9 +2,13 @@
 //
 // Engine E4 (tlsx): a real zcrypto tls.Client handshakes with a real tls.Server
 // over the deterministic in-memory duplex; the captured wire transcript is
-// parsed by the harness' own record/handshake parser (wire.go), secrets come
-// from tls.Config.KeyLogWriter, reference cryptography is in ref.go; oracle.go
-// compares every populated part of conn.GetHandshakeLog() with them.
+// parsed by the harness' own record/handshake parser (wire.go); the pre-master
+// and master secret are recomputed from the wire and the SERVER side's keys
+// (oracle2.go), TLS 1.3 traffic secrets come from tls.Config.KeyLogWriter;
+// reference cryptography is in ref.go; oracle.go / oracle2.go compare every
+// populated part of conn.GetHandshakeLog() (and its JSON encoding) with them,
+// also for handshakes that are made to fail (alerts, refused hellos, bad
+// certificates, man-in-the-middle edits).
 package main
 
 import (
@@ -18,6 +22,7 @@ import (
 	"sort"
 	"strings"
 	"sync"
+	"time"
 
 	"github.com/zmap/zcrypto/tls"
 	"github.com/zmap/zcrypto/x509"
@@ -79,6 +84,8 @@ var suites = []suiteInfo{
 	{0x1303, "TLS13_CHACHA20_POLY1305_SHA256", "TLS13", false, false, false},
 }
 
+func su0(id uint16) suiteInfo { s, _ := suiteByID(id); return s }
+
 func suiteByID(id uint16) (suiteInfo, bool) {
 	for _, s := range suites {
 		if s.ID == id {
@@ -123,6 +130,34 @@ type cfg struct {
 	InjEMS bool `json:"inject_ems,omitempty"`
 	InjHB  bool `json:"inject_heartbeat,omitempty"`
 	InjUnk bool `json:"inject_unknown,omitempty"`
+	// mitm: a renegotiation_info extension with a non-empty renegotiated_connection appended to the ServerHello
+	InjRenego bool `json:"inject_renegotiation_info,omitempty"`
+	// mitm: the last byte of the ServerKeyExchange signature is inverted in flight
+	BadSig bool `json:"corrupt_skx_signature,omitempty"`
+
+	// std mode: certificate scenario ("" = chain to the client's root, valid, name srv.example;
+	// "untrusted" = the client trusts another root; "expired" = leaf expired; "wrongname" = the client names
+	// other.example) and whether the client enforces the verification (then it aborts) or only records it.
+	PKI     string `json:"pki,omitempty"`
+	Enforce bool   `json:"enforce_verification,omitempty"`
+
+	// fp mode: the ClientHello carries an extended_random extension (draft-rescorla-tls-extended-random)
+	ExtRandom bool `json:"extended_random,omitempty"`
+
+	// alert mode (std client): a man-in-the-middle replaces the server's first flight (AlertPos 0) or everything
+	// after the ServerHello record (AlertPos 1) by one plaintext alert record {AlertLevel, AlertDesc}.
+	AlertPos   int   `json:"alert_position,omitempty"`
+	AlertLevel uint8 `json:"alert_level,omitempty"`
+	AlertDesc  uint8 `json:"alert_description,omitempty"`
+
+	// reject mode (std client): the server refuses the ClientHello: "suite" = no common cipher suite,
+	// "version-low" = the server accepts only a newer version, "version-high" = only an older one.
+	Refuse string `json:"refuse,omitempty"`
+}
+
+// aborts reports whether the handshake of the case is meant to fail (the log of the failed handshake is compared).
+func (c cfg) aborts() bool {
+	return c.Mode == "mitm" || c.Mode == "alert" || c.Mode == "reject" || (c.PKI != "" && c.PKI != "trusted" && c.Enforce)
 }
 
 func (c cfg) key() string { b, _ := json.Marshal(c); return string(b) }
@@ -135,7 +170,10 @@ func (c cfg) String() string {
 		n  string
 	}{{c.SNI, "sni"}, {c.ALPN, "alpn"}, {c.OCSP, "ocsp"}, {c.SCT, "sct"}, {c.Ticket, "ticket"}, {c.Max13, "max13"}, {c.Chain2, "chain2"},
 		{c.ReqOCSP, "req-status"}, {c.ReqSCT, "req-sct"}, {c.EMS, "ems"}, {c.HB, "hb"}, {c.Renego, "renego"}, {c.HRR, "hrr"},
-		{c.ForceTicket, "force-ticket-ext"}, {c.InjEMS, "inject-ems"}, {c.InjHB, "inject-hb"}, {c.InjUnk, "inject-unknown"}} {
+		{c.ForceTicket, "force-ticket-ext"}, {c.InjEMS, "inject-ems"}, {c.InjHB, "inject-hb"}, {c.InjUnk, "inject-unknown"},
+		{c.InjRenego, "inject-renego"}, {c.BadSig, "corrupt-skx-signature"}, {c.PKI != "", "pki=" + c.PKI}, {c.Enforce, "enforce"},
+		{c.ExtRandom, "extended-random"}, {c.Refuse != "", "refuse=" + c.Refuse},
+		{c.Mode == "alert", fmt.Sprintf("alert(pos=%d,level=%d,desc=%d)", c.AlertPos, c.AlertLevel, c.AlertDesc)}} {
 		if p.on {
 			sw = append(sw, p.n)
 		}
@@ -150,6 +188,10 @@ type ident struct {
 	pool    *x509.CertPool
 	pk      pubKeys
 	rsaPriv *stdrsa.PrivateKey
+	rootDER []byte
+	// another root the server chain does not lead to (scenario "untrusted")
+	otherPool *x509.CertPool
+	otherDER  []byte
 }
 
 var (
@@ -171,27 +213,42 @@ func sctList() [][]byte {
 	return [][]byte{s, []byte("not-an-sct")}
 }
 
-func getIdent(leafKey string, chain2 bool) *ident {
+func getIdent(leafKey string, chain2 bool) *ident { return getIdentPKI(leafKey, chain2, false) }
+
+func identOf(cf cfg) *ident { return getIdentPKI(cf.Cert, cf.Chain2, cf.PKI == "expired") }
+
+func getIdentPKI(leafKey string, chain2 bool, expired bool) *ident {
 	identMu.Lock()
 	defer identMu.Unlock()
 	k := fmt.Sprintf("%s/%v", leafKey, chain2)
+	if expired {
+		k += "/expired"
+	}
 	if id, ok := idents[k]; ok {
 		return id
 	}
 	root := fx.MustMint(fx.CertSpec{CN: "c28 root", Key: "ed-c28-root", IsCA: true,
 		KeyUsage: x509.KeyUsageCertSign | x509.KeyUsageDigitalSignature}, nil)
 	parent := root
-	id := &ident{pool: x509.NewCertPool()}
+	id := &ident{pool: x509.NewCertPool(), rootDER: root.DER, otherPool: x509.NewCertPool()}
 	id.pool.AddCert(root.X)
+	other := fx.MustMint(fx.CertSpec{CN: "c28 other root", Key: "ed-c28-other-root", IsCA: true,
+		KeyUsage: x509.KeyUsageCertSign | x509.KeyUsageDigitalSignature}, nil)
+	id.otherPool.AddCert(other.X)
+	id.otherDER = other.DER
 	var inter *fx.Cert
 	if chain2 {
 		inter = fx.MustMint(fx.CertSpec{CN: "c28 intermediate", Key: "p256b", IsCA: true, Serial: 7,
 			KeyUsage: x509.KeyUsageCertSign | x509.KeyUsageDigitalSignature}, root)
 		parent = inter
 	}
-	leaf := fx.MustMint(fx.CertSpec{CN: "srv.example " + k, Key: leafKey, DNS: []string{"srv.example"}, Serial: 2,
+	spec := fx.CertSpec{CN: "srv.example " + k, Key: leafKey, DNS: []string{"srv.example"}, Serial: 2,
 		EKU:      []x509.ExtKeyUsage{x509.ExtKeyUsageServerAuth},
-		KeyUsage: x509.KeyUsageDigitalSignature | x509.KeyUsageKeyEncipherment}, parent)
+		KeyUsage: x509.KeyUsageDigitalSignature | x509.KeyUsageKeyEncipherment}
+	if expired {
+		spec.NotBefore, spec.NotAfter = fx.T0.Add(-48*time.Hour), fx.T0.Add(-time.Hour)
+	}
+	leaf := fx.MustMint(spec, parent)
 	id.cert.Certificate = [][]byte{leaf.DER}
 	if inter != nil {
 		id.cert.Certificate = append(id.cert.Certificate, inter.DER)
@@ -244,7 +301,7 @@ type connResult struct {
 
 // build returns fresh client/server configs for a case (deterministic Rand, fixed Time).
 func build(cf cfg) (cc, sc *tls.Config, id *ident, ckl, skl *bytes.Buffer) {
-	id = getIdent(cf.Cert, cf.Chain2)
+	id = identOf(cf)
 	seed := cf.key()
 	ckl, skl = &bytes.Buffer{}, &bytes.Buffer{}
 	cc = &tls.Config{Rand: tlsx.NewDetRand("c-" + seed), Time: tlsx.Now, RootCAs: id.pool, KeyLogWriter: ckl}
@@ -268,6 +325,30 @@ func build(cf cfg) (cc, sc *tls.Config, id *ident, ckl, skl *bytes.Buffer) {
 		cc.ServerName = "srv.example"
 	} else {
 		cc.InsecureSkipVerify = true
+	}
+	if cf.PKI != "" {
+		// certificate scenarios: the client names a server and either enforces the verification or records it only
+		cc.ServerName = "srv.example"
+		cc.InsecureSkipVerify = !cf.Enforce
+		switch cf.PKI {
+		case "untrusted":
+			cc.RootCAs = id.otherPool
+		case "wrongname":
+			cc.ServerName = "other.example"
+		}
+	}
+	switch cf.Refuse {
+	case "suite":
+		for _, o := range suites {
+			if o.ID != cf.Suite && o.Kx == su0(cf.Suite).Kx && !o.Force && !o.TLS12Only {
+				sc.CipherSuites = []uint16{o.ID}
+				break
+			}
+		}
+	case "version-low":
+		sc.MinVersion, sc.MaxVersion = tls.VersionTLS13, tls.VersionTLS13
+	case "version-high":
+		sc.MinVersion, sc.MaxVersion = tls.VersionTLS10, tls.VersionTLS10
 	}
 	others := []tls.CurveID{tls.X25519, tls.CurveP256, tls.CurveP384, tls.CurveP521}
 	prefs := []tls.CurveID{tls.CurveID(cf.Curve)}
@@ -335,6 +416,13 @@ func build(cf cfg) (cc, sc *tls.Config, id *ident, ckl, skl *bytes.Buffer) {
 	if cf.HB {
 		add(&rawExt{extHeartbeat, []byte{1}})
 	}
+	if cf.ExtRandom {
+		er := []byte{0, 32}
+		for i := 0; i < 32; i++ {
+			er = append(er, byte(0xe0+i))
+		}
+		add(&rawExt{extExtRandom, er})
+	}
 	cc.ClientFingerprintConfiguration = fp
 	return
 }
@@ -351,7 +439,65 @@ func injectedExts(cf cfg) []byte {
 	if cf.InjUnk {
 		out = append(out, 0xfe, 0x00, 0x00, 0x03, 0xaa, 0xbb, 0xcc)
 	}
+	if cf.InjRenego {
+		out = append(out, 0xff, 0x01, 0x00, 0x03, 0x02, 0x5a, 0xa5)
+	}
 	return out
+}
+
+// corruptSKXSignature inverts the last byte of the ServerKeyExchange message (the end of its signature) inside the
+// plaintext handshake records of one server write. The handshake messages of the first flight are not fragmented
+// across records by the server, but several messages may share a record.
+func corruptSKXSignature(data []byte) []byte {
+	out := append([]byte(nil), data...)
+	off := 0
+	for off+5 <= len(out) {
+		rl := int(out[off+3])<<8 | int(out[off+4])
+		if off+5+rl > len(out) {
+			break
+		}
+		if out[off] == recHandshake {
+			p := off + 5
+			end := off + 5 + rl
+			for p+4 <= end {
+				ml := int(out[p+1])<<16 | int(out[p+2])<<8 | int(out[p+3])
+				if p+4+ml > end {
+					break
+				}
+				if out[p] == hsServerKeyExchange && ml > 0 {
+					out[p+4+ml-1] ^= 0xff
+					return out
+				}
+				p += 4 + ml
+			}
+		}
+		off += 5 + rl
+	}
+	return out
+}
+
+// alertInsteadOfFlight keeps the first pos records of a server write and puts one plaintext alert record after them.
+func alertInsteadOfFlight(data []byte, pos int, level, desc uint8) []byte {
+	off := 0
+	vers := []byte{3, 1}
+	for i := 0; i < pos && off+5 <= len(data); i++ {
+		rl := int(data[off+3])<<8 | int(data[off+4])
+		if off+5+rl > len(data) {
+			break
+		}
+		vers = []byte{data[off+1], data[off+2]}
+		off += 5 + rl
+	}
+	if pos == 0 && len(data) >= 3 {
+		vers = []byte{data[1], data[2]}
+	}
+	out := append([]byte(nil), data[:off]...)
+	return append(out, recAlert, vers[0], vers[1], 0, 2, level, desc)
+}
+
+// injectsRenego: the injected block ends with the 7-byte renegotiation_info of injectedExts.
+func injectsRenego(exts []byte) bool {
+	return len(exts) >= 7 && bytes.Equal(exts[len(exts)-7:], []byte{0xff, 0x01, 0x00, 0x03, 0x02, 0x5a, 0xa5})
 }
 
 // injectIntoServerHello appends extensions to the ServerHello that starts the
@@ -375,7 +521,25 @@ func injectIntoServerHello(data, exts []byte) []byte {
 		return data
 	}
 	var nb []byte
-	if fixed == len(body) {
+	if fixed < len(body) && injectsRenego(exts) {
+		// a renegotiation_info is being injected: it replaces the server's own one (an extension type
+		// appears once in a hello), every other extension stays where it is
+		if old, err := parseExts(body[fixed+2:]); err == nil {
+			var kept []byte
+			for _, e := range old {
+				if e.Typ != extRenego {
+					kept = append(kept, e.Raw...)
+				}
+			}
+			nb = append([]byte(nil), body[:fixed]...)
+			el := len(kept) + len(exts)
+			nb = append(nb, byte(el>>8), byte(el))
+			nb = append(nb, kept...)
+			nb = append(nb, exts...)
+		}
+	}
+	if nb != nil {
+	} else if fixed == len(body) {
 		nb = append(append([]byte(nil), body...), byte(len(exts)>>8), byte(len(exts)))
 		nb = append(nb, exts...)
 	} else {
@@ -403,7 +567,7 @@ func runCase(cf cfg) []connResult {
 		skl.Reset()
 		var delivered, firstFlight []byte
 		var prep func(n *tlsx.Net)
-		if cf.Mode == "mitm" {
+		if cf.Mode == "mitm" || cf.Mode == "alert" {
 			inj := injectedExts(cf)
 			prep = func(n *tlsx.Net) {
 				first := true
@@ -411,8 +575,17 @@ func runCase(cf cfg) []connResult {
 					if d == tlsx.S2C {
 						if first {
 							first = false
-							data = injectIntoServerHello(data, inj)
+							if cf.Mode == "alert" {
+								data = alertInsteadOfFlight(data, cf.AlertPos, cf.AlertLevel, cf.AlertDesc)
+							} else {
+								data = injectIntoServerHello(data, inj)
+								if cf.BadSig {
+									data = corruptSKXSignature(data)
+								}
+							}
 							firstFlight = append([]byte(nil), data...)
+						} else if cf.Mode == "alert" {
+							return nil // the rest of what the server says never arrives
 						}
 						delivered = append(delivered, data...)
 					}
@@ -428,7 +601,7 @@ func runCase(cf cfg) []connResult {
 		// transcript of the handshake proper
 		r.C2S, r.S2C = s.Net.Stream(tlsx.C2S), s.Net.Stream(tlsx.S2C)
 		r.DetS2C = r.S2C
-		if cf.Mode == "mitm" {
+		if cf.Mode == "mitm" || cf.Mode == "alert" {
 			r.S2C = delivered // what the client actually received
 			// The server's reaction to the client's abort (an alert) is delivered or not depending on who
 			// closes first; the reproducible part of this direction is the flight that carries the ServerHello.
@@ -494,7 +667,7 @@ func evalCase(cf cfg) (o caseOut) {
 		}
 		o.traces++
 	}
-	if cf.Mode == "mitm" {
+	if cf.aborts() {
 		evalMitm(cf, &o, a[0])
 		return
 	}
@@ -505,7 +678,7 @@ func evalCase(cf cfg) (o caseOut) {
 		return
 	}
 	o.negotiable = true
-	id := getIdent(cf.Cert, cf.Chain2)
+	id := identOf(cf)
 	su, _ := suiteByID(cf.Suite)
 	var prev *prevConn
 	for i, r := range a {
@@ -522,37 +695,11 @@ func evalCase(cf cfg) (o caseOut) {
 		}
 		o.msgs += int64(len(w.C2S)+len(w.S2C)) + int64(r.NRecords)
 		if w.TLS13 {
-			if sec, ok := keylogLookup(r.ClientKL, "SERVER_HANDSHAKE_TRAFFIC_SECRET", w.CH.Random); ok {
-				msgs, _, err := open13(w.SH.Suite, sec, w.EncS2C)
-				if err == nil && len(msgs) > 0 {
-					w.EEok = true
-					o.msgs += int64(len(msgs))
-					for _, m := range msgs {
-						switch m.Typ {
-						case hsEncryptedExts:
-							rr := rd{b: m.Body}
-							if exts, err := parseExts(rr.vec16()); err == nil {
-								if e, ok := findExt(exts, extALPN); ok {
-									if p, ok := decALPN(e.Data); ok && len(p) == 1 {
-										w.EEALPN = p[0]
-									}
-								}
-							}
-						case hsCertificate:
-							w.HasCrt = true
-							w.Certs, _ = parseCertificate13(m.Body)
-						}
-					}
-					o.outcomes["tls13-server-flight-decrypted"]++
-				} else {
-					o.outcomes["harness:tls13-flight-not-opened"]++
-				}
-			} else {
-				o.outcomes["harness:tls13-keylog-missing"]++
-			}
+			o.msgs += open13Flights(w, r.ClientKL, r.ServerKL, o.outcomes, false)
 		}
 		ctx := &connCtx{W: w, Log: r.Log, ClientKL: r.ClientKL, ServerKL: r.ServerKL, PK: id.pk, RSAPriv: id.rsaPriv,
 			Suite: su, Prev: prev, ServerLog: r.ServerLog, SrvALPN: r.ServerALPN}
+		ctx.Roots, ctx.VerifyName = trustOf(cf, id)
 		t := check(ctx)
 		o.evals += t.evals
 		for k, v := range t.outcomes {
@@ -573,9 +720,12 @@ func evalCase(cf cfg) (o caseOut) {
 			o.sigs = append(o.sigs, f.Sig)
 			o.finds = append(o.finds, map[string]any{"config": cf, "config_text": cf.String(), "connection": i, "connection_kind": kind, "detail": f.Detail})
 		}
-		// what a later resumed connection inherits
+		// what a later resumed connection inherits: the master secret of the full handshake (the independently
+		// recomputed one where check derived it, else the key log's)
 		if !w.TLS13 {
-			if m, ok := keylogLookup(r.ClientKL, "CLIENT_RANDOM", w.CH.Random); ok {
+			if t.master != nil && !w.Resumed {
+				prev = &prevConn{Master: t.master, NST: w.NST}
+			} else if m, ok := keylogLookup(r.ClientKL, "CLIENT_RANDOM", w.CH.Random); ok && !w.Resumed {
 				prev = &prevConn{Master: m, NST: w.NST}
 			} else if prev != nil && w.NST != nil {
 				prev = &prevConn{Master: prev.Master, NST: w.NST}
@@ -585,10 +735,117 @@ func evalCase(cf cfg) (o caseOut) {
 	return
 }
 
-// evalMitm compares the plaintext parts of the log of a handshake whose ServerHello was extended in flight.
+// trustOf returns what the client of a case verifies the server certificates against.
+func trustOf(cf cfg, id *ident) (roots [][]byte, name string) {
+	roots = [][]byte{id.rootDER}
+	if cf.PKI == "untrusted" {
+		roots = [][]byte{id.otherDER}
+	}
+	if cf.Mode == "fp" {
+		// a fingerprinted ClientHello carries its own SNI; Config.ServerName is what the verification uses
+		if cf.SNI {
+			name = "srv.example"
+		}
+		return
+	}
+	if cf.SNI || cf.PKI != "" {
+		name = "srv.example"
+	}
+	if cf.PKI == "wrongname" {
+		name = "other.example"
+	}
+	return
+}
+
+// open13Flights opens the protected TLS 1.3 records of both directions with the handshake traffic secrets of the key
+// logs (the client's first: it is what the client under test used; the server's as a fallback for a transcript a
+// man-in-the-middle split) and files what they carry: EncryptedExtensions, Certificate, Finished, alerts.
+func open13Flights(w *wire, clientKL, serverKL string, outcomes map[string]int64, aborted bool) (nmsgs int64) {
+	try := func(label string, recs []tlsx.Record, dir string) ([]hsMsg, bool) {
+		if len(recs) == 0 {
+			return nil, true
+		}
+		for _, kl := range []string{clientKL, serverKL} {
+			sec, ok := keylogLookup(kl, label, w.CH.Random)
+			if !ok && len(w.CHs) > 1 {
+				sec, ok = keylogLookup(kl, label, w.CHs[len(w.CHs)-1].Random)
+			}
+			if !ok {
+				continue
+			}
+			msgs, alerts, n, err := open13(w.SH.Suite, sec, recs)
+			if n == 0 {
+				continue
+			}
+			for _, a := range alerts {
+				a.Dir = dir
+				w.Alerts = append(w.Alerts, a)
+			}
+			if err != nil {
+				return nil, false
+			}
+			return msgs, true
+		}
+		w.Unopened += len(recs)
+		return nil, false
+	}
+	if msgs, ok := try("SERVER_HANDSHAKE_TRAFFIC_SECRET", w.EncS2C, "s2c"); ok && len(msgs) > 0 {
+		w.EEok = true
+		nmsgs += int64(len(msgs))
+		for _, m := range msgs {
+			switch m.Typ {
+			case hsEncryptedExts:
+				rr := rd{b: m.Body}
+				if exts, err := parseExts(rr.vec16()); err == nil {
+					if e, ok := findExt(exts, extALPN); ok {
+						if p, ok := decALPN(e.Data); ok && len(p) == 1 {
+							w.EEALPN = p[0]
+						}
+					}
+				}
+			case hsCertificate:
+				w.HasCrt = true
+				w.Certs, _ = parseCertificate13(m.Body)
+			case hsFinished:
+				w.Fin13S = m.Body
+			}
+		}
+		outcomes["tls13-server-flight-decrypted"]++
+	} else if len(w.EncS2C) > 0 {
+		if aborted {
+			outcomes["tls13-server-flight-not-opened (aborted handshake)"]++
+		} else {
+			outcomes["harness:tls13-flight-not-opened"]++
+		}
+	}
+	if msgs, ok := try("CLIENT_HANDSHAKE_TRAFFIC_SECRET", w.EncC2S, "c2s"); ok {
+		nmsgs += int64(len(msgs))
+		for _, m := range msgs {
+			if m.Typ == hsFinished {
+				w.Fin13C = m.Body
+			}
+		}
+		if len(w.EncC2S) > 0 {
+			outcomes["tls13-client-flight-decrypted"]++
+		}
+	} else if len(w.EncC2S) > 0 {
+		outcomes["tls13-client-flight-not-opened"]++
+	}
+	return
+}
+
+// evalMitm compares the log of a handshake that is meant to fail (man-in-the-middle edits, refusals, enforced
+// verification of a bad certificate): the plaintext parts, the certificate validation and the alert.
 func evalMitm(cf cfg, o *caseOut, r connResult) {
+	kindName := map[string]string{"mitm": "mitm-extended-ServerHello", "alert": "mitm-alert", "reject": "server-refuses"}[cf.Mode]
+	if kindName == "" {
+		kindName = "client-rejects-certificate"
+	}
+	if cf.BadSig {
+		kindName = "mitm-corrupt-skx-signature"
+	}
 	if r.OK {
-		o.outcomes["mitm:handshake-unexpectedly-completed"]++
+		o.outcomes["aborting-scenario:handshake-unexpectedly-completed"]++
 	}
 	w, err := parseWire(r.C2S, r.S2C)
 	if err != nil {
@@ -599,16 +856,20 @@ func evalMitm(cf cfg, o *caseOut, r connResult) {
 	o.negotiable = true
 	o.note = r.Err
 	o.msgs += int64(len(w.C2S)+len(w.S2C)) + int64(r.NRecords)
-	id := getIdent(cf.Cert, cf.Chain2)
+	id := identOf(cf)
 	su, _ := suiteByID(cf.Suite)
+	if w.TLS13 {
+		o.msgs += open13Flights(w, r.ClientKL, r.ServerKL, o.outcomes, true)
+	}
 	ctx := &connCtx{W: w, Log: r.Log, PK: id.pk, RSAPriv: id.rsaPriv, Suite: su, PlainOnly: true}
+	ctx.Roots, ctx.VerifyName = trustOf(cf, id)
 	t := check(ctx)
 	o.evals += t.evals
 	for k, v := range t.outcomes {
 		o.outcomes[k] += v
 	}
-	vn := map[uint16]string{0x0301: "1.0", 0x0302: "1.1", 0x0303: "1.2", 0x0304: "1.3"}[w.Vers]
-	o.outcomes["connection:mitm-extended-ServerHello:TLS"+vn+":"+su.Kx]++
+	vn := map[uint16]string{0: "none", 0x0301: "1.0", 0x0302: "1.1", 0x0303: "1.2", 0x0304: "1.3"}[w.Vers]
+	o.outcomes["connection:"+kindName+":TLS"+vn+":"+su.Kx]++
 	if len(t.finds) == 0 {
 		o.outcomes["log-equals-wire"]++
 	} else {
@@ -616,7 +877,7 @@ func evalMitm(cf cfg, o *caseOut, r connResult) {
 	}
 	for _, f := range t.finds {
 		o.sigs = append(o.sigs, f.Sig)
-		o.finds = append(o.finds, map[string]any{"config": cf, "config_text": cf.String(), "connection": 0, "connection_kind": "mitm", "detail": f.Detail})
+		o.finds = append(o.finds, map[string]any{"config": cf, "config_text": cf.String(), "connection": 0, "connection_kind": kindName, "detail": f.Detail})
 	}
 }
 
@@ -682,13 +943,23 @@ func space(thorough bool) []cfg {
 			add(c)
 		}
 	}
-	fpRowsFull, fpRowsOA := oaRows(11, thorough), oaRows(11, false)
+	// 12 switches of the fingerprinted ClientHello; the full product (thorough) covers the first 11, the
+	// extended_random switch rides on the orthogonal array in both tiers
+	fpRowsOA := oaRows(12, false)
+	fpRowsFull := fpRowsOA
+	if thorough {
+		fpRowsFull = nil
+		for _, r := range oaRows(11, true) {
+			fpRowsFull = append(fpRowsFull, append(append([]bool(nil), r...), false))
+		}
+		fpRowsFull = append(fpRowsFull, fpRowsOA...)
+	}
 	expandFpRows := func(b cfg, rows [][]bool) {
 		b.Mode = "fp"
 		for _, r := range rows {
 			c := b
 			c.SNI, c.ALPN, c.OCSP, c.SCT, c.Ticket, c.Chain2 = r[0], r[1], r[2], r[3], r[4], r[5]
-			c.ReqOCSP, c.ReqSCT, c.EMS, c.HB, c.Renego = r[6], r[7], r[8], r[9], r[10]
+			c.ReqOCSP, c.ReqSCT, c.EMS, c.HB, c.Renego, c.ExtRandom = r[6], r[7], r[8], r[9], r[10], r[11]
 			add(c)
 		}
 	}
@@ -781,9 +1052,84 @@ func space(thorough bool) []cfg {
 	}
 	for _, b := range mitmBases {
 		b.Mode, b.SNI, b.ALPN = "mitm", true, true
-		for m := 1; m < 8; m++ {
+		for m := 1; m < 16; m++ {
 			c := b
-			c.InjEMS, c.InjHB, c.InjUnk = m&1 != 0, m&2 != 0, m&4 != 0
+			c.InjEMS, c.InjHB, c.InjUnk, c.InjRenego = m&1 != 0, m&2 != 0, m&4 != 0, m&8 != 0
+			add(c)
+		}
+		// the ServerKeyExchange signature corrupted in flight (nothing injected)
+		if k := su0(b.Suite).Kx; k != "RSA" && k != "TLS13" {
+			c := b
+			c.BadSig = true
+			add(c)
+		}
+	}
+
+	// certificate scenarios (std client): {trusted, untrusted root, expired leaf, wrong name} x {recorded only,
+	// enforced (the client aborts on a bad certificate)} x {leaf only, leaf + intermediate}, per version
+	pkiBases := []cfg{{Vers: 0x0304, Suite: 0x1301, Cert: "p256", Curve: 29}, {Vers: 0x0303, Suite: 0x002f, Cert: "rsa2048", Curve: 29}}
+	for _, v := range old {
+		pkiBases = append(pkiBases, cfg{Vers: v, Suite: 0xc009, Cert: "p256", Curve: 23})
+	}
+	for _, b := range pkiBases {
+		b.Mode, b.SNI = "std", true
+		for _, pki := range []string{"trusted", "untrusted", "expired", "wrongname"} {
+			for _, enforce := range []bool{false, true} {
+				for _, chain2 := range []bool{false, true} {
+					c := b
+					c.PKI, c.Enforce, c.Chain2 = pki, enforce, chain2
+					add(c)
+				}
+			}
+		}
+	}
+
+	// alert mode: the server's answer replaced by one plaintext alert. TLS 1.2: every description at the levels
+	// warning and fatal after the ServerHello and in place of it; the undefined levels 0, 3 and 255 with every
+	// description (thorough) or a few (quick). TLS 1.0 / 1.3: a few descriptions at both positions.
+	someDesc := []uint8{0, 10, 20, 40, 42, 70, 80, 90, 100, 255}
+	alertCase := func(v uint16, pos int, level, desc uint8) {
+		c := cfg{Mode: "alert", Vers: v, Suite: 0x002f, Cert: "rsa2048", Curve: 29, SNI: true, AlertPos: pos, AlertLevel: level, AlertDesc: desc}
+		if v == 0x0304 {
+			c.Suite, c.Cert = 0x1301, "p256"
+		}
+		add(c)
+	}
+	for d := 0; d < 256; d++ {
+		for _, lv := range []uint8{1, 2} {
+			alertCase(0x0303, 1, lv, uint8(d))
+			alertCase(0x0303, 0, lv, uint8(d))
+		}
+		if thorough {
+			for _, lv := range []uint8{0, 3, 255} {
+				alertCase(0x0303, 1, lv, uint8(d))
+			}
+		}
+	}
+	for _, d := range someDesc {
+		for _, lv := range []uint8{0, 3, 255} {
+			alertCase(0x0303, 1, lv, d)
+		}
+		for _, v := range []uint16{0x0301, 0x0304} {
+			for _, lv := range []uint8{1, 2} {
+				alertCase(v, 0, lv, d)
+				alertCase(v, 1, lv, d)
+			}
+		}
+	}
+
+	// reject mode: the server refuses the ClientHello by itself
+	for _, v := range []uint16{0x0301, 0x0302, 0x0303, 0x0304} {
+		b := cfg{Mode: "reject", Vers: v, Suite: 0x002f, Cert: "rsa2048", Curve: 29, SNI: true}
+		if v == 0x0304 {
+			b.Suite, b.Cert = 0x1301, "p256"
+		}
+		for _, why := range []string{"suite", "version-low", "version-high"} {
+			if (why == "version-low" || why == "suite") && v == 0x0304 || why == "version-high" && v == 0x0301 {
+				continue
+			}
+			c := b
+			c.Refuse = why
 			add(c)
 		}
 	}
@@ -800,13 +1146,17 @@ type witness struct {
 
 func main() {
 	ev.Main("C28", "model_checking", func(c *ev.Ctx) {
-		c.Rule("every configuration of the lattice {TLS 1.0..1.3} x {every implemented suite of RSA / ECDHE-RSA / ECDHE-ECDSA / DHE-RSA / TLS 1.3} x certificate key x curve x {fresh, resumed via ticket} x extension switches (quick: strength-2 orthogonal array over the switches + all-on row; thorough: full product) is run twice on a real client+server pair; a case is distinct by its configuration; non-trivial = handshake completed and log compared")
+		c.Rule("every configuration of the lattice {TLS 1.0..1.3} x {every implemented suite of RSA / ECDHE-RSA / ECDHE-ECDSA / DHE-RSA / TLS 1.3} x certificate key x curve x {fresh, resumed via ticket} x extension switches (quick: strength-2 orthogonal array over the switches + all-on row; thorough: full product; fingerprinted hellos also with heartbeat / EMS / extended_random / renegotiation_info) is run twice on a real client+server pair; plus handshakes that are meant to fail and whose log is still compared: ServerHello extended in flight by every non-empty subset of {EMS, heartbeat, unknown, non-empty renegotiation_info}, ServerKeyExchange signature corrupted, server answer replaced by a plaintext alert (TLS 1.2: all 256 descriptions x {warning, fatal} x {instead of, after the ServerHello}; undefined levels 0/3/255; TLS 1.0 and 1.3: 10 descriptions), server refusing suite / version, and certificate scenarios {trusted, untrusted root, expired leaf, wrong name} x {recorded, enforced} x {leaf, leaf+intermediate} per version; a case is distinct by its configuration; non-trivial = log compared with the wire")
 		c.Assume(
-			"the wire transcript is what tlsx.Net recorded from the endpoints' Write calls",
-			"master / traffic secrets are taken from tls.Config.KeyLogWriter of both endpoints (they must agree); TLS 1.3 server flight is opened with them by the harness' own AEAD code (a wrong secret cannot open it)",
-			"Finished verify_data is compared with a reference PRF over the plaintext wire messages; both peers accepted each other's Finished, so this equals the encrypted bytes on the wire",
-			"a logged field that is empty/false/nil is 'not populated' and is not compared, except fields that are always emitted and plainly mirror one wire field (version, random, suites, ServerHello session id, verify_data, signature bytes, ocsp/ticket/sct/ems presence flags)",
+			"the wire transcript is what tlsx.Net recorded from the endpoints' Write calls (man-in-the-middle cases: what was delivered to the client)",
+			"pre-master and master secret of full handshakes are recomputed without the client: RSA by decrypting the wire ClientKeyExchange with the server key; (EC)DHE from the SERVER endpoint's ephemeral private value (its own handshake log), accepted only if crypto/ecdh / math/big derive the ServerKeyExchange public value on the wire from it, combined with the client's public value on the wire; master = harness PRF (RFC 5246 8.1). Both key logs must name that master secret. Resumed connections inherit it. TLS 1.3 flights are opened with the key-log traffic secrets by the harness' own AEAD code (a wrong secret cannot open them)",
+			"Finished verify_data (<= 1.2) is compared with a reference PRF over the plaintext wire messages; both peers accepted each other's Finished, so this equals the encrypted bytes on the wire; TLS 1.3 Finished (if logged) is compared with the decrypted wire message",
+			"a logged field that is empty/nil is 'not populated' and is not compared; booleans are compared both ways (flag iff extension on the wire) except ClientHello.sct_enabled, which mirrors Config.SignedCertificateTimestampExt and not the wire (one-way), and secure_renegotiation, which tls_handshake.go defines as 'extension present with a non-empty renegotiated_connection' (compared both ways against exactly that)",
 			"a logged SignatureAndHash matches the wire if its numeric fields equal the two wire bytes OR the names of its JSON encoding are the IANA names of those bytes",
+			"the logged alert (a description; the log has no level) must be the description of an alert the client sent or was delivered; an alert on the wire with no logged alert is not a violation (populated parts only)",
+			"ServerCertificates.Validation is compared with crypto/x509 (Go standard library) verifying the wire certificates under the client's roots, clock and ServerName: browser_trusted, presence of browser_error, its class (expired / unknown authority) and matches_domain",
+			"the JSON encoding of the log is decoded generically and its core fields (versions, randoms, session ids, suites, compression, extension flags and identifiers, certificates raw, signature raw, Finished, master secret, ticket, alert) are compared with the wire",
+			"this fork has no NPN (no field, no extension) and no ServerHello extended_random field: nothing to compare there",
 		)
 
 		if c.Replay != nil {
@@ -874,6 +1224,9 @@ func main() {
 			}
 		}
 		c.Merge(total)
+		if total["tls13-key-material-or-ticket-logged:no-reference"] > 0 {
+			c.Incomplete("the TLS 1.3 client log carries key material or a session ticket: this check has no independent reference for them and did not compare them")
+		}
 		if len(failedStd) > 0 {
 			sort.Strings(failedStd)
 			if len(failedStd) > 5 {
